@@ -424,3 +424,15 @@ func init() {
 	externals["math.Max"] = func(fr *Frame, a []Value) Value { return math.Max(a[0].(float64), a[1].(float64)) }
 	externals["math.Min"] = func(fr *Frame, a []Value) Value { return math.Min(a[0].(float64), a[1].(float64)) }
 }
+
+// time.NewTicker: the engine's clock only moves when a harness moves it, so a ticker never fires: its channel is nil.
+func init() {
+	externals["time.NewTicker"] = func(fr *Frame, a []Value) Value {
+		t := fr.it.namedType("time", "Ticker")
+		cell := new(Value)
+		*cell = zero(t)
+		return cell
+	}
+	externals["(*time.Ticker).Stop"] = func(fr *Frame, a []Value) Value { return nil }
+	externals["(*time.Ticker).Reset"] = func(fr *Frame, a []Value) Value { return nil }
+}
